@@ -64,14 +64,14 @@ func myHandshake(capLow, capHigh uint16, mariaExt uint32) []byte {
 	b = append(b, 10)
 	b = append(b, "8.0.0-verif"...)
 	b = append(b, 0)
-	b = append(b, 1, 0, 0, 0)                     // connection id
-	b = append(b, "12345678"...)                  // auth data 1
-	b = append(b, 0)                              // filler
-	b = append(b, byte(capLow), byte(capLow>>8))  // capabilities (lower)
-	b = append(b, 0x21, 0x02, 0x00)               // charset, status
+	b = append(b, 1, 0, 0, 0)                      // connection id
+	b = append(b, "12345678"...)                   // auth data 1
+	b = append(b, 0)                               // filler
+	b = append(b, byte(capLow), byte(capLow>>8))   // capabilities (lower)
+	b = append(b, 0x21, 0x02, 0x00)                // charset, status
 	b = append(b, byte(capHigh), byte(capHigh>>8)) // capabilities (upper)
-	b = append(b, 21)                             // auth data len
-	b = append(b, 0, 0, 0, 0, 0, 0)               // filler (6)
+	b = append(b, 21)                              // auth data len
+	b = append(b, 0, 0, 0, 0, 0, 0)                // filler (6)
 	b = binary.LittleEndian.AppendUint32(b, mariaExt)
 	b = append(b, "123456789012"...)
 	b = append(b, 0)
@@ -526,7 +526,7 @@ func mySessionHostile(t *rapid.T, seeds [][]byte) []byte {
 		return b
 	}
 	pre := []step{{true, hs}, {false, resp}, {true, ok}}
-	switch rapid.SampledFrom([]int{0, 1, 2, 2, 3, 3, 3, 4, 4, 5}).Draw(t, "where") {
+	switch rapid.SampledFrom([]int{0, 1, 2, 2, 3, 3, 3, 4, 4, 5, 6, 6}).Draw(t, "where") {
 	case 0: // truncated / hostile handshake from the database
 		h := short("hs", myHandshake(0xffff, 0xffff, 0))
 		return encodeSteps([]step{{true, myPacket(0, h)}, {false, resp}})
@@ -579,6 +579,45 @@ func mySessionHostile(t *rapid.T, seeds [][]byte) []byte {
 			body = cat([]byte{0x17, 1, 0, 0, 0, 0, 1, 0, 0, 0, 0x00, 1, 0xfd, 0, 3, 0}, drawHostileLenenc(t), rapid.SliceOfN(rapid.Byte(), 0, 6).Draw(t, "ptail"))
 		}
 		return encodeSteps(append(st, step{false, myPacket(0, short("execbody", body))}, step{true, myPacket(1, myOK)}))
+	case 6: // statement commands that refer to statements in a state the proxy may not expect (nothing prepared, unknown / special ids)
+		st := pre
+		if rapid.Bool().Draw(t, "prepared") {
+			prepare := myPacket(0, append([]byte{0x16}, rapid.SampledFrom([]string{"select id, enc from t where srch = ?", "insert into t (id, enc) values (?, ?)", "do ?", ""}).Draw(t, "psql")...))
+			reply := myPacket(1, []byte{0, 1, 0, 0, 0, 0, 0, 0, 0, 0, 0, 0})
+			if rapid.Bool().Draw(t, "prepare-fails") {
+				reply = myPacket(1, myErr)
+			}
+			st = append(st, step{false, prepare}, step{true, reply})
+		}
+		n := rapid.IntRange(1, 3).Draw(t, "ncmds")
+		for i := 0; i < n; i++ {
+			id := rapid.SampledFrom([]uint32{0, 1, 2, 0xffffffff, 0xfffffffe, 0x7fffffff}).Draw(t, "stmt-id")
+			idb := []byte{byte(id), byte(id >> 8), byte(id >> 16), byte(id >> 24)}
+			var cmd []byte
+			switch rapid.SampledFrom([]string{"execute", "execute", "execute-params", "close", "reset", "fetch", "long-data", "field-list", "reset-connection", "change-user"}).Draw(t, "cmd") {
+			case "execute":
+				cmd = cat([]byte{0x17}, idb, []byte{0, 1, 0, 0, 0})
+			case "execute-params":
+				cmd = cat([]byte{0x17}, idb, []byte{0, 1, 0, 0, 0, 0x00, 1, 0xfd, 0}, myLenencStr([]byte("find")))
+			case "close":
+				cmd = cat([]byte{0x19}, idb)
+			case "reset":
+				cmd = cat([]byte{0x1a}, idb)
+			case "fetch":
+				cmd = cat([]byte{0x1c}, idb, []byte{1, 0, 0, 0})
+			case "long-data":
+				cmd = cat([]byte{0x18}, idb, []byte{0, 0}, []byte("data"))
+			case "field-list":
+				cmd = append([]byte{0x04}, "t\x00"...)
+			case "reset-connection":
+				cmd = []byte{0x1f}
+			default:
+				cmd = append([]byte{0x11}, "user\x00\x00db\x00"...)
+			}
+			reply := myPacket(1, rapid.SampledFrom([][]byte{myOK, myErr, myEOF}).Draw(t, "reply"))
+			st = append(st, step{false, myPacket(0, short("cmd", cmd))}, step{true, reply})
+		}
+		return encodeSteps(st)
 	default: // header with hostile declared length from either side
 		l := rapid.SampledFrom([]uint32{0, 1, 2, 0xff, 0xffff, 0xfffffe, 0xffffff}).Draw(t, "plen")
 		hdr := []byte{byte(l), byte(l >> 8), byte(l >> 16), 0}
